@@ -259,6 +259,20 @@ var (
 	c06ContentRangeRe = regexp.MustCompile(`^bytes \d+-\d+/\d+$`)
 )
 
+// c06UploadSize asks a mem backend how many bytes the upload session u1 of the repository in the path holds.
+func c06UploadSize(b ociregistry.Interface, path string) (int64, bool) {
+	p := strings.TrimPrefix(path, "/v2/")
+	i := strings.Index(p, "/blobs/uploads/")
+	if i < 0 || p[i+len("/blobs/uploads/"):] != "dTE" {
+		return 0, false
+	}
+	w, err := b.PushBlobChunkedResume(context.Background(), p[:i], "u1", -1, 0)
+	if err != nil {
+		return 0, false
+	}
+	return w.Size(), true
+}
+
 func c06Run(r *vcore.Run, q c06Req) {
 	g := &c06Guard{Interface: c06Backend(q.Backend), closed: map[int]int{}}
 	h := ociserver.New(g, c03ServerOpts(q.Opts))
@@ -381,6 +395,15 @@ func c06Run(r *vcore.Run, q c06Req) {
 			case "PATCH", "GET":
 				needLocation()
 				needRange()
+				if q.Backend == "mem" {
+					// the Range header reports what the registry holds (inclusive end; "0-0" for nothing or one byte)
+					if size, ok := c06UploadSize(g.Interface, q.Path); ok {
+						want := fmt.Sprintf("0-%d", max(size-1, 0))
+						if got := hd.Get("Range"); got != want {
+							viol("Range-differs-from-upload-size", want, got)
+						}
+					}
+				}
 			case "PUT":
 				needLocation()
 				needDigest()
